@@ -504,7 +504,7 @@ func c59(c *Ctx) {
 		}
 		return ex.Tuple.(*ssa.Call).Call.Args[1] == sl.X
 	}))
-	c.Between_misc2(H, Calls("io.ReadFull"), RetOK(), Calls("io.Copy").ArgIs(1, "$0"), false)
+	c.BetweenVia(H, Calls("io.ReadFull"), RetOK(), Calls("io.Copy").ArgIs(1, "$0"), false)
 	c.PassThroughIncl(H, c.Edge(fmt.Sprintf(".PayloadType($0) == %d", ping)).Where("after the control payload was read", func(in ssa.Instruction) bool {
 		for _, r := range Calls("io.ReadFull").F(c.P, in.Parent()) {
 			if DomBefore(r, in) {
@@ -531,8 +531,8 @@ func c59(c *Ctx) {
 	over := frame + ".(*websocket.hybiFrameReader)#0.header.Length > " + limit
 	nfr := Calls(".NewFrameReader")
 	left := c.Edge("$0.frameReader != nil")
-	c.Between_misc2(Rc, left, nfr, Calls("io.Copy").ArgIs(0, "io.Discard").ArgIs(1, "$0.frameReader"), true)
-	c.Between_misc2(Rc, left, nfr, Stores(fr).StoredIs("nil"), true)
+	c.BetweenVia(Rc, left, nfr, Calls("io.Copy").ArgIs(0, "io.Discard").ArgIs(1, "$0.frameReader"), true)
+	c.BetweenVia(Rc, left, nfr, Stores(fr).StoredIs("nil"), true)
 	c.Before(Rc, Calls("io.Copy"), Stores(fr).StoredIs("nil"))
 	c.HasBranch(Rc, over)
 	big := c.Edge(over)
@@ -593,7 +593,7 @@ func c59(c *Ctx) {
 	c.Writers("websocket.Conn.request", "websocket.newHybiConn")
 	c.Writers(hdr+".MaskingKey", NFW, R)
 	c.Guard(NFW, mkStores, "$r.needMaskingKey")
-	c.Between_misc2(NFW, c.Edge("$r.needMaskingKey"), RetOK(), mkStores.StoredIs("generateMaskingKey()#0"), true)
+	c.BetweenVia(NFW, c.Edge("$r.needMaskingKey"), RetOK(), mkStores.StoredIs("generateMaskingKey()#0"), true)
 	c.Reject(NFW, RetOK(), "$r.needMaskingKey", "generateMaskingKey()#1 != nil")
 	c.Has(NFW, Stores(hdr+".OpCode").StoredIs("$0"))
 	c.Has(NFW, Stores(hdr+".Fin").StoredIs("true"))
